@@ -787,6 +787,24 @@ func (tr *Tr) repoInterface(t types.Type) bool {
 	return false
 }
 
+// pureAccessorVal: the value of a side-effect-free accessor x.name() in state st - one fresh value per receiver and per
+// heap (identified by the terms of all heap components), so two evaluations with nothing written in between agree.
+func (tr *Tr) pureAccessorVal(st *State, name string, recv Val, rt types.Type) Val {
+	key := fmt.Sprintf("%s|%d|%d", name, recv[1].id, recv[2].id)
+	for _, k := range heapKeys {
+		key += fmt.Sprintf("|%d", tr.get(st, heapComp(k)).id)
+	}
+	if tr.pureCache == nil {
+		tr.pureCache = map[string]Val{}
+	}
+	if v, ok := tr.pureCache[key]; ok {
+		return v
+	}
+	v := tr.freshVal(rt, "pm_"+name)
+	tr.pureCache[key] = v
+	return v
+}
+
 func (tr *Tr) ifaceContract(c *ssa.CallCommon) *Contract {
 	n, ok := c.Value.Type().(*types.Named)
 	if !ok || n.Obj().Pkg() == nil {
@@ -1189,6 +1207,12 @@ func (tr *Tr) callIfaceContract(fr *Frame, site ssa.Instruction, c *ssa.CallComm
 	}
 	tr.bumpAlloc(post)
 	res := tr.freshVal(sig.Results(), "r_"+c.Method.Name())
+	if ct.Pure && ct.ModSet && len(ct.Modifies) == 0 && sig.Params().Len() == 0 && sig.Results().Len() == 1 {
+		// `pure` accessor of a repository interface: one value per (receiver, heap contents); the same term is used by
+		// m(x, "name") in specifications evaluated in a state with the same heap
+		res = tr.pureAccessorVal(pre, c.Method.Name(), recv, sig.Results().At(0).Type())
+		tr.trust("pure interface accessor " + ct.FnName + ": its result is a function of the receiver and the heap (implementations are proved to modify nothing; determinism is assumed)")
+	}
 	env2 := mkEnv(pre, post)
 	bindResults(env2, sig, res)
 	reach := fr.reach[fr.cur]
